@@ -18,19 +18,23 @@ type Kernel struct {
 	Paths   []*Path
 	NdVars  map[string]*Term
 	Assume  *Term
+	Fixed   map[int]int64 // nd sites concretised by the runner (cube parameters)
 	pkgPath string
 }
 
 // NewKernel prepares an engine with the verifNd* intrinsics for pkgPath.
 func NewKernel(P *Program, pkgPath string) *Kernel {
 	e := NewEngine(P)
-	k := &Kernel{E: e, NdVars: map[string]*Term{}, pkgPath: pkgPath}
+	k := &Kernel{E: e, NdVars: map[string]*Term{}, pkgPath: pkgPath, Fixed: map[int]int64{}}
 	B := e.B
 	k.Assume = B.True
 	pfx := pkgPath + "."
 	nd := func(kind string, site *Term, w int) *Term {
 		if !site.IsConst() {
 			unsupported("verifNd with symbolic site")
+		}
+		if v, ok := k.Fixed[int(int64(site.Val))]; ok {
+			return B.BV(w, uint64(v))
 		}
 		name := fmt.Sprintf("nd_%s_%d", kind, int64(site.Val))
 		v := B.Var(name, w)
@@ -97,6 +101,33 @@ func (k *Kernel) FlagNames(prefix string) []string {
 	}
 	sort.Strings(out)
 	return out
+}
+
+// ModelTerms: nd variables, every other variable (user-function outcomes and
+// results without data arguments) and every uninterpreted application with
+// its arguments.
+func (k *Kernel) ModelTerms() []*Term {
+	seen := map[int]bool{}
+	var ts []*Term
+	add := func(t *Term) {
+		if !seen[t.ID] {
+			seen[t.ID] = true
+			ts = append(ts, t)
+		}
+	}
+	for _, t := range k.ModelVars() {
+		add(t)
+	}
+	for _, v := range k.E.B.Vars() {
+		add(v)
+	}
+	for _, a := range k.E.B.Apps() {
+		add(a)
+		for _, x := range a.Args {
+			add(x)
+		}
+	}
+	return ts
 }
 
 // ModelVars lists the nd variables (for counterexample extraction).
